@@ -504,6 +504,14 @@ func (c *Ctx) outputIsCapturedBuffer(fn *ssa.Function, out ssa.Value, evalCall *
 			if obj := calleeObj(x); obj != nil && obj.Name() == "Bytes" && len(x.Common().Args) == 1 {
 				return bufs[x.Common().Args[0]]
 			}
+			// a helper that flushes the buffer it is given and returns its bytes
+			if fc := c.newFlushCtx(); fc != nil {
+				for b := range bufs {
+					if fc.fromBytes(x, b, 0, map[ssa.Value]bool{}) {
+						return true
+					}
+				}
+			}
 		}
 		return false
 	}
